@@ -5,6 +5,7 @@ use crate::core::{RunCtx, harness_error};
 pub mod c01;
 pub mod c02;
 pub mod c03;
+pub mod c04;
 pub mod c05;
 pub mod c06;
 pub mod c07;
@@ -16,15 +17,17 @@ pub mod c12;
 pub mod c13;
 pub mod c14;
 pub mod c15;
+pub mod c16;
 pub mod c20;
 
-pub const ALL: &[&str] = &["C01", "C02", "C03", "C05", "C06", "C07", "C08", "C09", "C10", "C11", "C12", "C13", "C14", "C15", "C20"];
+pub const ALL: &[&str] = &["C01", "C02", "C03", "C04", "C05", "C06", "C07", "C08", "C09", "C10", "C11", "C12", "C13", "C14", "C15", "C16", "C20"];
 
 pub fn run(id: &str, ctx: &RunCtx) -> i32 {
     match id {
         "C01" => c01::run(ctx),
         "C02" => c02::run(ctx),
         "C03" => c03::run(ctx),
+        "C04" => c04::run(ctx),
         "C05" => c05::run(ctx),
         "C06" => c06::run(ctx),
         "C07" => c07::run(ctx),
@@ -36,6 +39,7 @@ pub fn run(id: &str, ctx: &RunCtx) -> i32 {
         "C13" => c13::run(ctx),
         "C14" => c14::run(ctx),
         "C15" => c15::run(ctx),
+        "C16" => c16::run(ctx),
         "C20" => c20::run(ctx),
         _ => harness_error(&format!("unknown property id {id}")),
     }
@@ -60,6 +64,7 @@ pub fn replay(path: &str) -> i32 {
         "C01" => c01::replay(&v),
         "C02" => c02::replay(&v),
         "C03" => c03::replay(&v),
+        "C04" => c04::replay(&v),
         "C05" => c05::replay(&v),
         "C06" => c06::replay(&v),
         "C07" => c07::replay(&v),
@@ -71,6 +76,7 @@ pub fn replay(path: &str) -> i32 {
         "C13" => c13::replay(&v),
         "C14" => c14::replay(&v),
         "C15" => c15::replay(&v),
+        "C16" => c16::replay(&v),
         "C20" => c20::replay(&v),
         _ => harness_error(&format!("no replay for property {prop:?}")),
     }
